@@ -371,8 +371,9 @@ Definition g_fanout (c : gcase) : bool :=
 """
 
 # Repair D155 (adapt_circuit passes the parallel-edge index through) has landed: the mechanism model runs with Grid.fix_idx = true
-# and idx_guard is not a guard any more.  VERIF_C17_FIXES=none evaluates the model of the code before it (debugging aid only).
-FIXES = [x for x in os.environ.get("VERIF_C17_FIXES", "idx").split(",") if x and x != "none"]
+# and idx_guard is not a guard any more; repair D118 (delays of at most one step neglected per edge) has landed too: the guard
+# one_step_delay_not_mixed is dropped (`delay`).  VERIF_C17_FIXES=none evaluates the model of the code before it (debugging aid only).
+FIXES = [x for x in os.environ.get("VERIF_C17_FIXES", "idx,delay").split(",") if x and x != "none"]
 HEADER = HEADER.replace("@IDX@", "fix_idx" if "idx" in FIXES else "false")
 
 def cstrs(l):
